@@ -38,7 +38,7 @@ Proof. destruct s as [v0 l f]. mr_exec. Qed.
 
 Theorem C15_gen_cg_follow fo (s : @cgetter pay) (G : @mval F) :
   run_fn c (g_cg_follow c) (m_cg fo s) [("getter", G)]
-  = Some (Ok (MRec [("settable_data", MRec [("following", MSome G); ("last_request", m_opt (fun v => MV (pv v)) (cg_last s))]);
+  = Some (Ok (MRec [("settable_data", MRec [("following", MSome (canon G)); ("last_request", m_opt (fun v => MV (pv v)) (cg_last s))]);
                     ("value", MV (pv (cg_val s)))], MTup0)).
 Proof. destruct s as [v0 l f]. mr_exec. Qed.
 Theorem C15_gen_cg_stop_following fo (s : @cgetter pay) :
